@@ -306,7 +306,31 @@ pub fn avro_write_ocf(schema: &Schema, batches: &[RecordBatch], o: &AvroOpts) ->
     Ok(w.into_inner())
 }
 
+static OCF_HANGS: std::sync::atomic::AtomicUsize = std::sync::atomic::AtomicUsize::new(0);
+pub const HANG: &str = "HANG: arrow-avro OCF Reader did not return";
+
+/// OCF read with a watchdog: the reader is known to spin forever on some inputs (finding F17); a spinning reader
+/// thread is abandoned (it keeps burning a core until the process exits) and reported as `Err(HANG..)`
 pub fn avro_read_ocf(bytes: &[u8], o: &AvroOpts, batch_size: usize) -> Result<(SchemaRef, Vec<RecordBatch>), String> {
+    let (tx, rx) = std::sync::mpsc::channel();
+    let b = bytes.to_vec();
+    let o2 = o.clone();
+    std::thread::spawn(move || {
+        let r = vp_engine::runner::catch(|| avro_read_ocf_inner(&b, &o2, batch_size));
+        let _ = tx.send(r.map_err(|p| format!("PANIC at {}: {}", p.loc, p.msg)));
+    });
+    let secs = if OCF_HANGS.load(std::sync::atomic::Ordering::Relaxed) == 0 { 30 } else { 10 };
+    match rx.recv_timeout(std::time::Duration::from_secs(secs)) {
+        Ok(Ok(r)) => r,
+        Ok(Err(p)) => panic!("{}", p),
+        Err(_) => {
+            OCF_HANGS.fetch_add(1, std::sync::atomic::Ordering::Relaxed);
+            Err(format!("{} within {} s ({} bytes)", HANG, secs, bytes.len()))
+        }
+    }
+}
+
+pub fn avro_read_ocf_inner(bytes: &[u8], o: &AvroOpts, batch_size: usize) -> Result<(SchemaRef, Vec<RecordBatch>), String> {
     let r = arrow_avro::reader::ReaderBuilder::new().with_batch_size(batch_size).with_utf8_view(o.utf8view).with_strict_mode(o.strict).build(Cursor::new(bytes.to_vec())).map_err(|e| e.to_string())?;
     let schema = r.schema();
     let mut out = vec![];
@@ -361,12 +385,32 @@ pub fn avro_schema_json(schema: &Schema) -> Result<String, String> {
 
 /// decode framed messages with the push decoder; `chunks` = how the byte stream is fed (sizes), empty = all at once
 pub fn avro_read_stream(avro_json: &str, bytes: &[u8], o: &AvroOpts, batch_size: usize, chunks: &[usize]) -> Result<(SchemaRef, Vec<RecordBatch>), String> {
+    avro_read_stream_fp(avro_json, bytes, o, batch_size, chunks, None)
+}
+
+pub fn arrow_rabin(avro_json: &str) -> Result<u64, String> {
+    use arrow_avro::schema::{AvroSchema, Fingerprint, FingerprintAlgorithm};
+    match AvroSchema::new(avro_json.to_string()).fingerprint(FingerprintAlgorithm::Rabin).map_err(|e| e.to_string())? {
+        Fingerprint::Rabin(x) => Ok(x),
+        f => Err(format!("unexpected fingerprint {:?}", f)),
+    }
+}
+
+/// `rabin`: register the schema under this fingerprint instead of the one arrow-avro computes
+pub fn avro_read_stream_fp(avro_json: &str, bytes: &[u8], o: &AvroOpts, batch_size: usize, chunks: &[usize], rabin: Option<u64>) -> Result<(SchemaRef, Vec<RecordBatch>), String> {
     use arrow_avro::schema::{AvroSchema, Fingerprint, FingerprintAlgorithm, SchemaStore};
     let avro = AvroSchema::new(avro_json.to_string());
     let store = match o.framing {
         AvroFraming::Ocf | AvroFraming::SoeRabin => {
             let mut s = SchemaStore::new();
-            s.register(avro).map_err(|e| e.to_string())?;
+            match rabin {
+                Some(fp) => {
+                    s.set(Fingerprint::Rabin(fp), avro).map_err(|e| e.to_string())?;
+                }
+                None => {
+                    s.register(avro).map_err(|e| e.to_string())?;
+                }
+            }
             s
         }
         AvroFraming::Confluent(id) => {
